@@ -14,10 +14,6 @@ import z3
 from . import ir
 
 
-import os
-FRESH_SOLVER = bool(os.environ.get('LLSYM_FRESH'))
-
-
 class Unsupported(Exception):
     """Something the engine cannot encode: the run is inconclusive, never 'holds'."""
 
@@ -166,7 +162,14 @@ class Exec:
         self.decisions = []
         self.forks = []          # new prefixes discovered on this path
         self.pc = []
-        self.solver = z3.Solver()
+        # Determinism of re-execution: z3's simplifier orders commutative arguments by AST id, and AST ids depend on
+        # everything ever allocated in the context.  A path and its later re-executions must therefore build their terms
+        # in contexts with identical histories: every path gets a fresh term context, and the solver lives in a second
+        # context (assertions are translated into it), so that the queries made the first time a decision is met - and
+        # skipped on replay - leave no trace in the term context.
+        z3.z3._main_ctx = z3.Context()
+        self.sctx = z3.Context()
+        self.solver = z3.Solver(ctx=self.sctx)
         self.solver.set('timeout', timeout_ms)
         self.frames = []
         self.globals = {}
@@ -183,22 +186,20 @@ class Exec:
         self.notes = []
 
     # ---- solver -------------------------------------------------------------------------
+    def tr(self, t):
+        """translate a term of the path's term context into the solver context"""
+        if isinstance(t, bool):
+            return z3.BoolVal(t, ctx=self.sctx)
+        return t.translate(self.sctx)
+
     def check(self, *extra):
         t0 = time.time()
-        if FRESH_SOLVER:
-            s = z3.SolverFor('QF_BV')
-            s.set('timeout', 20000)
-            s.add(*self.pc)
-            if extra:
-                s.add(*extra)
-            r = s.check()
-        else:
-            if extra:
-                self.solver.push()
-                self.solver.add(*extra)
-            r = self.solver.check()
-            if extra:
-                self.solver.pop()
+        if extra:
+            self.solver.push()
+            self.solver.add(*[self.tr(e) for e in extra])
+        r = self.solver.check()
+        if extra:
+            self.solver.pop()
         self.stats.solver_s += time.time() - t0
         self.stats.queries += 1
         if r == z3.sat:
@@ -214,7 +215,7 @@ class Exec:
         """model of PC (+extra) or None"""
         self.solver.push()
         if extra:
-            self.solver.add(*extra)
+            self.solver.add(*[self.tr(e) for e in extra])
         t0 = time.time()
         r = self.solver.check()
         self.stats.solver_s += time.time() - t0
@@ -235,7 +236,7 @@ class Exec:
         if c is True:
             return
         self.pc.append(c)
-        self.solver.add(c)
+        self.solver.add(self.tr(c))
 
     def fresh(self, name, w):
         self.fresh_n += 1
@@ -248,8 +249,15 @@ class Exec:
         if isinstance(cond, bool):
             return cond
         n = len(self.decisions)
+        if self.frames:
+            fr = self.frames[-1]
+            where = (fr.fn.name, fr.block, fr.idx, tag)
+        else:
+            where = ('<setup>', '', 0, tag)
         if n < len(self.prefix):
-            d = self.prefix[n]
+            d, rec = self.prefix[n]
+            if rec != where:
+                raise Unsupported("re-execution diverged from the recorded decision prefix at %r (recorded %r)" % (where, rec))
         else:
             if tag in ('oob', 'oob-gep', 'guard', 'ub-shift', 'div0', 'vector-realloc', 'string-too-long'):
                 # safety checks almost always hold: ask for the violating side first (one query when it is infeasible)
@@ -262,7 +270,7 @@ class Exec:
                         d = False
                     else:
                         d = True
-                        self.forks.append(self.decisions + [False])
+                        self.forks.append(self.decisions + [(False, where)])
             else:
                 rt = self.check(cond)
                 if rt == z3.unsat:
@@ -273,8 +281,8 @@ class Exec:
                         d = True
                     else:
                         d = True
-                        self.forks.append(self.decisions + [False])
-        self.decisions.append(d)
+                        self.forks.append(self.decisions + [(False, where)])
+        self.decisions.append((d, where))
         self.stats.decisions += 1
         self.assume(cond if d else z3.Not(cond))
         return d
@@ -1154,6 +1162,9 @@ def explore(module, body, on_path, stats=None, intercepts=None, patterns=None, m
         except Unsupported as e:
             res = Result(ex, 'unsupported', {'why': str(e), 'site': ex.site() if ex.frames else []})
             problems.append("unsupported: %s" % e)
+        if len(ex.decisions) < len(prefix) and res.kind != 'unsupported':
+            problems.append("re-execution ended before the recorded decision prefix was consumed (%s)" % res.kind)
+            res = Result(ex, 'unsupported', {'why': 'decision prefix not consumed', 'site': []})
         work.extend(ex.forks)
         stats.paths += 1
         stats.instrs += ex.ninstr
